@@ -151,8 +151,55 @@ def hazard_rule(rep, prop):
         rep.ok(R, "package", "no np.vectorize among the %d reachable functions" % len(reach))
 
 
+LOAD_SIDE = ("C02", "C03", "C05", "C06", "C07", "C08", "C10", "C11", "C12", "C18", "C01", "C04", "C15", "C19", "C16")
+TEXT_PARSERS = ("np.genfromtxt", "numpy.genfromtxt", "np.loadtxt", "numpy.loadtxt", "np.fromstring", "numpy.fromstring", "np.matrix", "np.mat", "ast.literal_eval", "literal_eval", "eval", "exec",
+                "json.loads", "sym.sympify", "sympy.sympify", "sympify", "sym.parse_expr", "sympy.parse_expr", "parse_expr", "sym.S", "sympy.S", "shlex.split", "csv.reader", "tokenize.generate_tokens")
+
+
+def hazard_rule2(rep, prop):
+    """further library hazards (library model): floating-point error state, second parsers of script text, float conversion of unbounded ints"""
+    R = "HAZ.2"
+    rep.rule(R, "reachable code does not (a) make NumPy raise on underflow (np.errstate / np.seterr with all= or under= 'raise'/'call': an underflow to zero or to a subnormal is the "
+                "correct value of a valid expression), (b) hand script text to a second parser (np.genfromtxt, ast.literal_eval, sympify, ...: other line-end, number and error "
+                "conventions than the grammar's), (c) push a Python int through a float conversion while writing it (math./cmath. predicates: OverflowError beyond 2**1024)", floor=1)
+    ix = common.index(rep)
+    reach = reachable(ix, ENTRIES[prop])
+    n = 0
+    for q in sorted(reach):
+        f = ix.funcs[q]
+        tree = getattr(f, "orig", None) or f.node
+        for c in ast.walk(tree):
+            if not isinstance(c, ast.Call):
+                continue
+            name = u(c.func)
+            if name in ("np.errstate", "numpy.errstate", "np.seterr", "numpy.seterr"):
+                armed = [k for k in c.keywords if k.arg in ("all", "under") and isinstance(k.value, ast.Constant) and k.value.value in ("raise", "call")]
+                n += 1
+                rep.check(not armed, R, ix.site(f, c), "`%s` leaves underflow alone" % " ".join(u(c).split())[:60],
+                          "with %s=%r a valid expression whose value underflows (exp(-800), 1e-200*1e-200) is refused instead of evaluating to 0.0" % (armed[0].arg, armed[0].value.value) if armed else "",
+                          key="%s|errstate" % q)
+            elif name in TEXT_PARSERS and prop in LOAD_SIDE and f.mod in ("listener", "auxiliary", "__init__", "error") and c.args and not isinstance(c.args[0], ast.Constant):
+                n += 1
+                rep.bad(R, ix.site(f, c), "script text is read by the generated recogniser only", "`%s` parses text with conventions of its own (line ends, number forms, what counts as an error)"
+                        % " ".join(u(c).split())[:60], key="%s|%s" % (q, name))
+            elif prop in ("C01", "C09", "C15", "C13") and f.mod == "program" and (name.startswith(("math.", "cmath.")) or name in ("float",)) and len(c.args) == 1 and isinstance(c.args[0], ast.Name):
+                # inside a handler that catches the overflow it is harmless
+                guarded_ = False
+                for t in ast.walk(tree):
+                    if isinstance(t, ast.Try) and any(x is c for b_ in t.body for x in ast.walk(b_)):
+                        for h in t.handlers:
+                            if h.type is None or any(k in u(h.type) for k in ("OverflowError", "ArithmeticError", "Exception", "BaseException")):
+                                guarded_ = True
+                n += 1
+                rep.check(guarded_, R, ix.site(f, c), "`%s` cannot fail for an integer of any size" % " ".join(u(c).split())[:50],
+                          "the argument is converted to a float first: OverflowError for a Python int of 1024 bits or more, which the serialiser otherwise writes exactly", key="%s|%s" % (q, name))
+    if not n:
+        rep.ok(R, "package", "none of the listed library hazards among the %d reachable functions" % len(reach))
+
+
 def run(rep, prop):
     if prop not in ENTRIES:
         return
     common.guarded(rep, "MEMO.1", memo_rule, rep, prop)
     common.guarded(rep, "HAZ.1", hazard_rule, rep, prop)
+    common.guarded(rep, "HAZ.2", hazard_rule2, rep, prop)
